@@ -121,6 +121,38 @@ impl DiskDevice {
     }
 }
 
+/// Verification hooks (compiled only with `--cfg fclones_verif`):
+/// `FCLONES_VERIF_DISK_KIND=ssd|hdd|unknown` forces the kind of every detected device,
+/// `FCLONES_VERIF_MOUNTS=kind=/abs/dir,kind=/abs/dir2` registers additional fake devices
+/// mounted at the given directories (their kind is not affected by the pin above).
+#[cfg(fclones_verif)]
+mod verif_hooks {
+    use sysinfo::DiskKind;
+
+    fn parse_kind(s: &str) -> Option<DiskKind> {
+        match s {
+            "ssd" => Some(DiskKind::SSD),
+            "hdd" => Some(DiskKind::HDD),
+            "unknown" => Some(DiskKind::Unknown(-1)),
+            _ => None,
+        }
+    }
+
+    pub fn pinned_disk_kind() -> Option<DiskKind> {
+        parse_kind(std::env::var("FCLONES_VERIF_DISK_KIND").ok()?.as_str())
+    }
+
+    pub fn extra_mounts() -> Vec<(DiskKind, String)> {
+        let spec = std::env::var("FCLONES_VERIF_MOUNTS").unwrap_or_default();
+        spec.split(',')
+            .filter_map(|e| {
+                let (kind, path) = e.split_once('=')?;
+                Some((parse_kind(kind)?, path.to_string()))
+            })
+            .collect()
+    }
+}
+
 /// Finds disk devices by file paths
 pub struct DiskDevices {
     devices: Vec<DiskDevice>,
@@ -187,6 +219,11 @@ impl DiskDevices {
         file_system: String,
         pool_sizes: &HashMap<OsString, Parallelism>,
     ) -> usize {
+        #[cfg(fclones_verif)]
+        let disk_kind = match verif_hooks::pinned_disk_kind() {
+            Some(pinned) if file_system != "verif" => pinned,
+            _ => disk_kind,
+        };
         if let Some((index, _)) = self.devices.iter().find_position(|d| d.name == name) {
             index
         } else {
@@ -264,6 +301,16 @@ impl DiskDevices {
                     .mount_points
                     .push((Path::from(d.mount_point()), index));
             };
+        }
+        #[cfg(fclones_verif)]
+        for (i, (kind, mount_point)) in verif_hooks::extra_mounts().into_iter().enumerate() {
+            let index = result.add_device(
+                OsString::from(format!("verif{i}")),
+                kind,
+                String::from("verif"),
+                pool_sizes,
+            );
+            result.mount_points.push((Path::from(mount_point), index));
         }
         result
             .mount_points
